@@ -29,6 +29,19 @@ def a2_password_to_key(alg, pw):
 
 
 _P2K = {}
+_CHECKED = [0]
+
+
+def p2k_fast(alg, pw):
+    """closed form of A.2 (digest of the first 2^20 octets of the repeated password); the first few
+    results of every run are cross-checked against the RFC's own loop above"""
+    n = -(-1048576 // len(pw))
+    v = HASH[alg]((pw * n)[:1048576]).digest()
+    if _CHECKED[0] < 3:
+        _CHECKED[0] += 1
+        if a2_password_to_key(alg, pw) != v:
+            raise RuntimeError("oracle self-check failed: closed form != RFC 3414 A.2 loop")
+    return v
 
 
 def user_key(alg, secret, kt, engine_id):
@@ -40,7 +53,7 @@ def user_key(alg, secret, kt, engine_id):
     else:
         k = (alg, secret)
         if k not in _P2K:
-            _P2K[k] = a2_password_to_key(alg, secret)
+            _P2K[k] = p2k_fast(alg, secret)
         ku = _P2K[k]
     return HASH[alg](ku + engine_id + ku).digest()
 
